@@ -763,6 +763,11 @@ class Interp:
             return self.call_function(fn.node, list(args), at)
         if isinstance(fn, tuple) and fn and fn[0] == 'partial':
             return self.apply(fn[1], list(fn[2]) + list(args), at)
+        if isinstance(fn, tuple) and fn and fn[0] == 'extern' and fn[2] in self.oracles:
+            return self.oracles[fn[2]](list(args), at)
+        r = self.call_value_hook(fn, list(args), at)
+        if r is not NotImplemented:
+            return r
         if isinstance(fn, tuple) and fn and fn[0] == 'closure':
             lam, cenv = fn[1], fn[2]
             params = [a.arg for a in lam.args.args]
